@@ -407,12 +407,12 @@ def ll_lines(name, pars, x):
             a, b, d = (np.float64(pars[k]) for k in ("alpha", "beta", "delta"))
             z = x / a
             p = np.power(z, b)
-            e = np.exp(-p)
+            e = -np.expm1(-p)
             lines += [_t("log", d, np.log(d)), _t("log", b, np.log(b)), _t("log", a, np.log(a))]
             lines += _tab_vec("log", z, np.log(z))
             lines += [f"TABLE pow {f2b(zz)} {f2b(b)} {f2b(pp)}" for zz, pp in zip(z.tolist(), p.tolist())]
-            lines += _tab_vec("exp", -p, e)
-            lines += _tab_vec("log", 1.0 - e, np.log(1.0 - e))
+            lines += _tab_vec("expm1", -p, -e)
+            lines += _tab_vec("log", e, np.log(e))
             run = ["RUN", "ll", "expweibull", f(a), f(b), f(d)]
         elif name == "Normal":
             mu, sg = np.float64(pars["mu"]), np.float64(pars["sigma"])
@@ -648,7 +648,7 @@ def main(ck):
         "between fit(x) and the rescaled fit(c*x) on x must be within 1e-6 (1+|LL|) + the measured optimiser error of the "
         "two fits (gain of restarting the real fit from its own result): by ll_scale_law that gap IS err(c*x) - err(x)",
         "von Mises has its scale fixed at 1 (fscale=1): no scale equivariance is claimed or checked",
-        "the Lean log-likelihoods are evaluated at Float with numpy/scipy values of log, exp, pow, gammaln, i0e, cos as TABLE leaves",
+        "the Lean log-likelihoods are evaluated at Float with numpy/scipy values of log, exp, expm1, pow, gammaln, i0e, cos as TABLE leaves",
     ]
     ck.partial = {
         "ll_fit_ge_ll_start / ll_fit_ge_ll_truth for Weibull, ExpWeibull, GenGamma, ScipyDistribution": "observed: scipy's Nelder-Mead (rv_continuous.fit) is not modelled",
